@@ -6,7 +6,7 @@
 
    Differences from Session/Model.v (which assumes whole-packet, never-blocking I/O):
    * state: [outq] (the deque _out_packet: packets handed to the connection, not yet written) and
-     [blocked] (the socket currently refuses every write);
+     [blocked], [failing] (how the current socket treats writes: accept / refuse (block) / fail hard);
    * every packet goes through [_packet_queue]: the event [Handed c p] records the append, [Tx c p]
      the moment the packet is written by [_packet_write]; [loop_write()] is modelled by [lw] and is
      called exactly where the code calls it (from _packet_queue when not inside a callback, after
@@ -19,7 +19,15 @@
      single-threaded mode) and written at once, the new socket accepting writes;
    * publish(qos=0) leaves info.rc at MQTT_ERR_SUCCESS when the hand-over succeeded (it is only
      assigned on failure), so a later reconnect() can still turn it into MQTT_ERR_CONN_LOST;
-   * a lost connection leaves the queue alone; ack() appends its reply even without a socket.
+   * a lost connection leaves the queue alone; ack() appends its reply even without a socket;
+   * the transport has three modes ([tm s], from the two flags): it accepts every write, it refuses every write (BlockingIOError:
+     the packet is put back, loop_write() reports success), or the next write FAILS HARD (OSError such as
+     EPIPE: the packet is put back, _packet_write returns MQTT_ERR_CONN_LOST, loop_write() ->
+     _loop_rc_handle closes the socket and calls on_disconnect ([SockLost]) and the error code travels back
+     through _packet_queue and _send_* to the caller, whose [if rc != MQTT_ERR_SUCCESS: return rc] exits are
+     modelled: _update_inflight and _do_on_publish stop, _handle_pubrec has already advanced the state,
+     publish() takes the message out of the window again (state publish, MQTT_ERR_NO_CONN: repaired by e5489c0),
+     and the CONNACK retransmission loop stops at the message whose loop_write() failed (repaired by da8b0f1).
    Mode modelled: no network thread, no on_socket_register_write callback, API calls are not made
    from inside callbacks (in particular not from on_pre_connect / on_socket_open, so the gate
    [_connect_queued] - nothing is written on a new socket before its CONNECT is queued - is never
@@ -48,6 +56,12 @@ Inductive pkt :=
 | PPubrec (mid : Z)
 | PPubcomp (mid : Z).
 
+(* what send() does on the current socket *)
+Inductive tmode :=
+| TAccept                  (* takes everything *)
+| TBlock                   (* raises BlockingIOError *)
+| TFail.                   (* raises OSError (EPIPE): the connection is dead, the client finds out when it writes *)
+
 (* an entry of _out_packet: the packet and whether it carries an MQTTMessageInfo (pkt["info"] is not None;
    the info of a PUBLISH is the one of the publish() call with the packet's tag) *)
 Record qpkt := mkQ { q_pkt : pkt; q_info : bool }.
@@ -63,7 +77,8 @@ Record sess := mkS {
   conn : Z;                 (* ghost: number of sockets opened so far *)
   ntag : Z;                 (* ghost: number of publish() calls so far *)
   outq : list qpkt;         (* _out_packet, oldest first *)
-  blocked : bool            (* the current socket refuses writes *)
+  blocked : bool;           (* the current socket refuses writes (send() raises BlockingIOError, or OSError if [failing]) *)
+  failing : bool            (* ... and it does so for good: the write fails hard (send() raises OSError) *)
 }.
 
 Inductive inpkt :=
@@ -87,7 +102,7 @@ Inductive event :=
 | SockLost                           (* the connection ended *)
 | Handed (c : Z) (p : pkt)           (* packet appended to _out_packet; c = number of the latest connection *)
 | InfoLost (tag : Z)                 (* info.rc := MQTT_ERR_CONN_LOST for the publish() call with this tag *)
-| Blk (b : bool).                    (* the transport starts (true) / stops (false) refusing writes *)
+| Blk (b : bool).                    (* the transport starts (true) / stops (false) refusing writes (whether it blocks or is dead) *)
 
 Inductive op :=
 | OPublish (q : Z)
@@ -95,11 +110,12 @@ Inductive op :=
 | OConnLost                          (* end of stream / error noticed by loop_read *)
 | ORx (p : inpkt) (raises : bool)    (* one broker packet processed by loop_read; does the user callback raise *)
 | OAck (mid q : Z)                   (* ack(mid, qos) *)
-| OBlock (b : bool).                 (* true: send() raises BlockingIOError from now on; false: it accepts again
-                                        and loop_write() is called (select() reports the socket writable) *)
+| OTransport (m : tmode).            (* the current socket changes its behaviour.  TBlock: send() raises BlockingIOError
+                                        from now on.  TAccept / TFail: select() reports the socket writable and
+                                        loop_write() is called - everything queued is written, resp. the write fails hard *)
 
 Definition init (c : cfg) : sess :=
-  mkS [] [] 0 0 false true false 0 0 [] false.
+  mkS [] [] 0 0 false true false 0 0 [] false false.
 
 (* ---- small helpers ---- *)
 Definition is_queued (m : omsg) : bool := match o_st m with MsQueued => true | _ => false end.
@@ -163,16 +179,24 @@ Fixpoint flush_evs (cn : Z) (q : list qpkt) : list event :=
   | [] => []
   | x :: q' => Tx cn (q_pkt x) :: written_evs x ++ flush_evs cn q'
   end.
-(* loop_write(): [can] = there is a socket and it accepts writes; a blocked socket takes nothing
-   (the first send() raises BlockingIOError and the packet is put back), without a socket
-   loop_write returns MQTT_ERR_NO_CONN at once *)
-Definition lw (cn : Z) (can : bool) (q : list qpkt) : list qpkt * list event :=
-  if can then ([], flush_evs cn q) else (q, []).
-(* _packet_queue followed by loop_write() *)
-Definition pq (cn : Z) (can : bool) (q : list qpkt) (x : qpkt) : list qpkt * list event :=
-  let (q', ev) := lw cn can (q ++ [x]) in (q', Handed cn (q_pkt x) :: ev).
-
-Definition can_write (s : sess) : bool := sock s && negb (blocked s).
+(* loop_write(): [alive] = there is a socket.  Without a socket it returns MQTT_ERR_NO_CONN at once.  A socket
+   that accepts writes takes the whole queue; a blocked one takes nothing (the first send() raises
+   BlockingIOError, the packet is put back, the result is MQTT_ERR_SUCCESS); on a failing one the first send()
+   raises OSError: the packet is put back, the socket is closed, on_disconnect runs, the result is
+   MQTT_ERR_CONN_LOST - unless the queue is empty: then nothing is attempted.
+   Result: the queue, the events, and whether there still is a socket (then, and only then, the call
+   returned MQTT_ERR_SUCCESS). *)
+Definition lw (cn : Z) (m : tmode) (alive : bool) (q : list qpkt) : list qpkt * list event * bool :=
+  if alive then
+    match m with
+    | TAccept => ([], flush_evs cn q, true)
+    | TBlock => (q, [], true)
+    | TFail => match q with [] => ([], [], true) | _ :: _ => (q, [SockLost], false) end
+    end
+  else (q, [], false).
+(* _packet_queue (append) followed by loop_write() *)
+Definition pq (cn : Z) (m : tmode) (alive : bool) (q : list qpkt) (x : qpkt) : list qpkt * list event * bool :=
+  let '(q', ev, a) := lw cn m alive (q ++ [x]) in (q', Handed cn (q_pkt x) :: ev, a).
 
 Definition pub_pkt (m : omsg) : pkt := PPublish (o_mid m) (o_qos m) (o_dup m) (o_tag m).
 Definition rel_pkt (m : omsg) : pkt := PPubrel (o_mid m) (o_tag m).
@@ -207,83 +231,118 @@ Fixpoint reset_out_list (c : cfg) (clean : bool) (infl : Z) (l : list omsg) : li
   end.
 
 (* ---- _update_inflight: every released message goes through _send_publish -> _packet_queue ->
-        loop_write() (we are not inside a callback); retransmissions carry no info ---- *)
-Fixpoint update_inflight (c : cfg) (cn : Z) (can : bool) (infl : Z) (q : list qpkt) (l : list omsg)
-  : list omsg * Z * list qpkt * list event :=
+        loop_write() (we are not inside a callback); retransmissions carry no info.  It is entered with a
+        socket; [if rc != MQTT_ERR_SUCCESS: return rc] - the loop ends at the first send whose write fails
+        hard (that message is already in its wait state and counted).
+        Result: the stored messages, the counter, the queue, the events, is there still a socket ---- *)
+Fixpoint update_inflight (c : cfg) (cn : Z) (t : tmode) (infl : Z) (q : list qpkt) (l : list omsg)
+  : list omsg * Z * list qpkt * list event * bool :=
   match l with
-  | [] => ([], infl, q, [])
+  | [] => ([], infl, q, [], true)
   | m :: l' =>
       if infl <? c_max c then
         if is_queued m then
-          let (q1, ev1) := pq cn can q (mkQ (pub_pkt m) false) in
-          let '(r, n, q2, ev2) := update_inflight c cn can (infl + 1) q1 l' in
-          (set_st m (wait_of (o_qos m)) :: r, n, q2, ev1 ++ ev2)
+          let '(q1, ev1, a1) := pq cn t true q (mkQ (pub_pkt m) false) in
+          if a1 then
+            let '(r, n, q2, ev2, a2) := update_inflight c cn t (infl + 1) q1 l' in
+            (set_st m (wait_of (o_qos m)) :: r, n, q2, ev1 ++ ev2, a2)
+          else (set_st m (wait_of (o_qos m)) :: l', infl + 1, q1, ev1, false)
         else
-          let '(r, n, q2, ev2) := update_inflight c cn can infl q l' in (m :: r, n, q2, ev2)
-      else (m :: l', infl, q, [])
+          let '(r, n, q2, ev2, a2) := update_inflight c cn t infl q l' in (m :: r, n, q2, ev2, a2)
+      else (m :: l', infl, q, [], true)
   end.
 
 (* ---- the retransmission loop of _handle_connack (result == 0): _send_publish/_send_pubrel run with
-        _in_callback_mutex held (so _packet_queue only appends), then loop_write() is called once per
-        message, also for messages that needed nothing; a queued message ends the loop after one more
-        loop_write() ---- *)
-Fixpoint connack_loop (cn : Z) (can : bool) (q : list qpkt) (l : list omsg)
-  : list omsg * list qpkt * list event :=
+        _in_callback_mutex held (so _packet_queue only appends and reports success), then loop_write() is
+        called once per message, also for messages that needed nothing; a queued message ends the loop after
+        one more loop_write().  [rc = self.loop_write(); if rc != MQTT_ERR_SUCCESS: return rc] - when that write
+        fails hard the loop ENDS: the message whose packet was just appended is in its wait state (and was
+        counted by _messages_reconnect_reset_out), the remaining messages are left as they are for the next
+        connection.  Result: the stored messages, the queue, the events, is there still a socket ---- *)
+Fixpoint connack_loop (cn : Z) (t : tmode) (q : list qpkt) (l : list omsg)
+  : list omsg * list qpkt * list event * bool :=
   match l with
-  | [] => ([], q, [])
+  | [] => ([], q, [], true)
   | m :: l' =>
       match o_st m with
-      | MsQueued => let (q1, ev1) := lw cn can q in (m :: l', q1, ev1)
+      | MsQueued => let '(q1, ev1, a1) := lw cn t true q in (m :: l', q1, ev1, a1)
       | MsPublish =>
-          let (q1, ev1) := pq cn can q (mkQ (pub_pkt m) false) in
-          let '(r, q2, ev2) := connack_loop cn can q1 l' in
-          (set_st m (wait_of (o_qos m)) :: r, q2, ev1 ++ ev2)
+          let '(q1, ev1, a1) := pq cn t true q (mkQ (pub_pkt m) false) in
+          if a1 then
+            let '(r, q2, ev2, a2) := connack_loop cn t q1 l' in
+            (set_st m (wait_of (o_qos m)) :: r, q2, ev1 ++ ev2, a2)
+          else (set_st m (wait_of (o_qos m)) :: l', q1, ev1, false)
       | MsResendPubrel =>
           if o_qos m =? 2 then
-            let (q1, ev1) := pq cn can q (mkQ (rel_pkt m) false) in
-            let '(r, q2, ev2) := connack_loop cn can q1 l' in
-            (set_st m MsWaitPubcomp :: r, q2, ev1 ++ ev2)
+            let '(q1, ev1, a1) := pq cn t true q (mkQ (rel_pkt m) false) in
+            if a1 then
+              let '(r, q2, ev2, a2) := connack_loop cn t q1 l' in
+              (set_st m MsWaitPubcomp :: r, q2, ev1 ++ ev2, a2)
+            else (set_st m MsWaitPubcomp :: l', q1, ev1, false)
           else
-            let (q1, ev1) := lw cn can q in
-            let '(r, q2, ev2) := connack_loop cn can q1 l' in (m :: r, q2, ev1 ++ ev2)
+            let '(q1, ev1, a1) := lw cn t true q in
+            if a1 then
+              let '(r, q2, ev2, a2) := connack_loop cn t q1 l' in (m :: r, q2, ev1 ++ ev2, a2)
+            else (m :: l', q1, ev1, false)
       | _ =>
-          let (q1, ev1) := lw cn can q in
-          let '(r, q2, ev2) := connack_loop cn can q1 l' in (m :: r, q2, ev1 ++ ev2)
+          let '(q1, ev1, a1) := lw cn t true q in
+          if a1 then
+            let '(r, q2, ev2, a2) := connack_loop cn t q1 l' in (m :: r, q2, ev1 ++ ev2, a2)
+          else (m :: l', q1, ev1, false)
       end
   end.
 
 (* ---- setters ---- *)
 Definition with_out (s : sess) (o : list omsg) (infl : Z) : sess :=
-  mkS o (inm s) infl (last_mid s) (sock s) (first s) (cack s) (conn s) (ntag s) (outq s) (blocked s).
+  mkS o (inm s) infl (last_mid s) (sock s) (first s) (cack s) (conn s) (ntag s) (outq s) (blocked s) (failing s).
 Definition with_inm (s : sess) (i : list (Z * Z)) : sess :=
-  mkS (out s) i (inflight s) (last_mid s) (sock s) (first s) (cack s) (conn s) (ntag s) (outq s) (blocked s).
+  mkS (out s) i (inflight s) (last_mid s) (sock s) (first s) (cack s) (conn s) (ntag s) (outq s) (blocked s) (failing s).
 Definition with_sock (s : sess) (b : bool) : sess :=
-  mkS (out s) (inm s) (inflight s) (last_mid s) b (first s) (cack s && b) (conn s) (ntag s) (outq s) (blocked s).
+  mkS (out s) (inm s) (inflight s) (last_mid s) b (first s) (cack s && b) (conn s) (ntag s) (outq s) (blocked s) (failing s).
 Definition with_q (s : sess) (q : list qpkt) : sess :=
-  mkS (out s) (inm s) (inflight s) (last_mid s) (sock s) (first s) (cack s) (conn s) (ntag s) q (blocked s).
-Definition with_blocked (s : sess) (b : bool) : sess :=
-  mkS (out s) (inm s) (inflight s) (last_mid s) (sock s) (first s) (cack s) (conn s) (ntag s) (outq s) b.
+  mkS (out s) (inm s) (inflight s) (last_mid s) (sock s) (first s) (cack s) (conn s) (ntag s) q (blocked s) (failing s).
+Definition is_block (m : tmode) : bool := match m with TBlock => true | _ => false end.
+Definition is_fail (m : tmode) : bool := match m with TFail => true | _ => false end.
+(* a failing socket refuses writes as well: both flags are set *)
+Definition refuses (m : tmode) : bool := match m with TAccept => false | _ => true end.
+Definition with_tm (s : sess) (m : tmode) : sess :=
+  mkS (out s) (inm s) (inflight s) (last_mid s) (sock s) (first s) (cack s) (conn s) (ntag s) (outq s) (refuses m) (is_fail m).
+(* the mode of the current socket *)
+Definition tm (s : sess) : tmode := if failing s then TFail else if blocked s then TBlock else TAccept.
+(* the state after write attempts on an open socket: the queue as they left it, the socket closed if one of
+   them failed hard *)
+Definition settle (s : sess) (q : list qpkt) (alive : bool) : sess :=
+  if alive then with_q s q else with_q (with_sock s false) q.
 
-(* hand one packet over from a place that is not inside a callback *)
+(* hand one packet over from a place that is not inside a callback (the result of the call is
+   MQTT_ERR_SUCCESS iff there is a socket afterwards); without a socket the packet is appended and
+   loop_write() returns MQTT_ERR_NO_CONN *)
 Definition send (s : sess) (x : qpkt) : sess * list event :=
-  let (q', ev) := pq (conn s) (can_write s) (outq s) x in (with_q s q', ev).
+  if sock s then
+    let '(q', ev, a) := pq (conn s) (tm s) true (outq s) x in (settle s q' a, ev)
+  else (with_q s (outq s ++ [x]), [Handed (conn s) (q_pkt x)]).
 
 (* ---- publish() ---- *)
 Definition do_publish (c : cfg) (s : sess) (q : Z) : sess * list event :=
   let mid := mid_next (last_mid s) in
   let tag := ntag s in
-  let s1 := mkS (out s) (inm s) (inflight s) mid (sock s) (first s) (cack s) (conn s) (tag + 1) (outq s) (blocked s) in
+  let s1 := mkS (out s) (inm s) (inflight s) mid (sock s) (first s) (cack s) (conn s) (tag + 1) (outq s) (blocked s) (failing s) in
   if q =? 0 then
     if sock s then
-      let (s2, ev) := send s1 (mkQ (PPublish mid 0 false tag) true) in (s2, ev ++ [Ret tag mid q 0])
+      let (s2, ev) := send s1 (mkQ (PPublish mid 0 false tag) true) in
+      (s2, ev ++ [Ret tag mid q (if sock s2 then 0 else 7)])
     else (s1, [Ret tag mid q 4])
   else if (c_maxq c >? 0) && (Z.of_nat (length (out s)) >=? c_maxq c) then (s1, [Ret tag mid q 15])
   else if has_mid mid (out s) then (s1, [Ret tag mid q 15])
   else if window_free c (inflight s) then
     if sock s then
+      (* [if rc != MQTT_ERR_SUCCESS]: whenever the PUBLISH could not be sent - also when the write of this very
+         packet failed hard - the message leaves the window again, goes back to state publish and publish()
+         returns MQTT_ERR_NO_CONN (4); the packet it appended stays in the queue until reconnect() drops it *)
       let (s2, ev) := send (with_out s1 (out s ++ [mkO mid q (wait_of q) false tag]) (inflight s + 1))
                            (mkQ (PPublish mid q false tag) true) in
-      (s2, ev ++ [Ret tag mid q 0])
+      if sock s2 then (s2, ev ++ [Ret tag mid q 0])
+      else (with_out s2 (out s ++ [mkO mid q MsPublish false tag]) (inflight s), ev ++ [Ret tag mid q 4])
     else
       (with_out s1 (out s ++ [mkO mid q MsPublish false tag]) (inflight s), [Ret tag mid q 4])
   else
@@ -305,18 +364,18 @@ Definition do_reconnect (c : cfg) (s : sess) (ok : bool) : sess * list event :=
   let lost := flat_map lost_evs (outq s) in
   if ok then
     (* the new socket accepts writes: CONNECT is queued and written at once *)
-    (mkS o i n (last_mid s) true (first s) false (conn s + 1) (ntag s) [] false,
+    (mkS o i n (last_mid s) true (first s) false (conn s + 1) (ntag s) [] false false,
      Reconn :: lost ++ [SockOpened (conn s + 1); Handed (conn s + 1) PConnect; Tx (conn s + 1) PConnect])
   else
-    (mkS o i n (last_mid s) false (first s) false (conn s) (ntag s) [] false, Reconn :: lost ++ [Raised]).
+    (mkS o i n (last_mid s) false (first s) false (conn s) (ntag s) [] false false, Reconn :: lost ++ [Raised]).
 
 (* ---- _do_on_publish (final acknowledgement of a stored message) ---- *)
 Definition do_on_publish (c : cfg) (s : sess) (m : omsg) : sess * list event :=
   let o := remove_mid (o_mid m) (out s) in
   let infl := inflight s - 1 in
   if c_max c >? 0 then
-    let '(o', n, q', ev) := update_inflight c (conn s) (can_write s) infl (outq s) o in
-    (with_q (with_out s o' n) q', CbPublish (o_mid m) (o_tag m) :: Published (o_tag m) :: ev)
+    let '(o', n, q', ev, a) := update_inflight c (conn s) (tm s) infl (outq s) o in
+    (settle (with_out s o' n) q' a, CbPublish (o_mid m) (o_tag m) :: Published (o_tag m) :: ev)
   else
     (with_out s o infl, [CbPublish (o_mid m) (o_tag m); Published (o_tag m)]).
 
@@ -332,10 +391,10 @@ Definition do_rx (c : cfg) (s : sess) (p : inpkt) (raises : bool) : sess * list 
   else
   match p with
   | IConnack rc =>
-      let s1 := mkS (out s) (inm s) (inflight s) (last_mid s) (sock s) false true (conn s) (ntag s) (outq s) (blocked s) in
+      let s1 := mkS (out s) (inm s) (inflight s) (last_mid s) (sock s) false true (conn s) (ntag s) (outq s) (blocked s) (failing s) in
       if rc =? 0 then
-        let '(o, q', ev) := connack_loop (conn s) (can_write s) (outq s) (out s) in
-        (with_q (with_out s1 o (inflight s)) q', Inp p :: ev)
+        let '(o, q', ev, a) := connack_loop (conn s) (tm s) (outq s) (out s) in
+        (settle (with_out s1 o (inflight s)) q' a, Inp p :: ev)
       else (with_sock s1 false, [Inp p; SockLost])
   | IPuback mid | IPubcomp mid =>
       match find_mid mid (out s) with
@@ -345,6 +404,7 @@ Definition do_rx (c : cfg) (s : sess) (p : inpkt) (raises : bool) : sess * list 
   | IPubrec mid =>
       match find_mid mid (out s) with
       | Some m =>
+          (* the state is advanced before PUBREL is handed over, whatever happens to the write *)
           let (s', ev) := send (with_out s (update_mid mid (fun m => set_st m MsWaitPubcomp) (out s)) (inflight s))
                                (mkQ (PPubrel mid (o_tag m)) false) in
           (s', Inp p :: ev)
@@ -372,6 +432,7 @@ Definition do_rx (c : cfg) (s : sess) (p : inpkt) (raises : bool) : sess * list 
         else if c_manual c then (s, Inp p :: ev)
         else let (s2, ev2) := send s (mkQ (PPuback mid) false) in (s2, Inp p :: ev ++ ev2)
       else
+        (* the message is stored whatever the hand-over of PUBREC returned *)
         let (s2, ev2) := send s (mkQ (PPubrec mid) false) in
         (with_inm s2 (in_set mid tag (inm s)), Inp p :: ev2)
   end.
@@ -384,13 +445,16 @@ Definition do_ack (c : cfg) (s : sess) (mid q : Z) : sess * list event :=
     else (s, [])
   else (s, []).
 
-(* the transport starts / stops refusing writes; when it accepts again the event loop calls loop_write() *)
-Definition do_block (s : sess) (b : bool) : sess * list event :=
+(* the current socket changes its behaviour; unless it starts refusing writes the event loop sees it writable
+   and calls loop_write() *)
+Definition do_transport (s : sess) (m : tmode) : sess * list event :=
   if sock s then
-    if b then (with_blocked s true, [Blk true])
-    else
-      let (q', ev) := lw (conn s) true (outq s) in
-      (with_q (with_blocked s false) q', Blk false :: ev)
+    match m with
+    | TBlock => (with_tm s TBlock, [Blk true])
+    | _ =>
+        let '(q', ev, a) := lw (conn s) m true (outq s) in
+        (settle (with_tm s m) q' a, Blk (refuses m) :: ev)
+    end
   else (s, []).
 
 Definition step (c : cfg) (s : sess) (o : op) : sess * list event :=
@@ -400,7 +464,7 @@ Definition step (c : cfg) (s : sess) (o : op) : sess * list event :=
   | OConnLost => if sock s then (with_sock s false, [SockLost]) else (s, [])
   | ORx p raises => do_rx c s p raises
   | OAck mid q => do_ack c s mid q
-  | OBlock b => do_block s b
+  | OTransport m => do_transport s m
   end.
 
 (* run: final state and the whole trace (oldest event first) *)
